@@ -8,10 +8,18 @@
 //! patterns at the envelope boundary; exhaustive 5-letter vectors for lengths <= 4.  Every call is
 //! compared with the schoolbook convolution in i128, with the same call on a fresh object, with the
 //! accumulate-into variant on a pre-filled destination and with forward x forward -> inverse.
+//!
+//! Further families: every public way of obtaining an object (`new`, `Default::default`, a clone of
+//! either) is an initial state, and the table sizes 1 and 2 below the pre-sized 4 are object states as
+//! well, so the smallest transforms are the first thing each kind of fresh object computes; operands
+//! that ALIAS (views of one buffer: the same slice twice, prefixes, suffixes, overlapping and adjacent
+//! windows) judged against the convolution of their values; and buffer-reuse histories, in which one
+//! object is called again and again with the SAME input / spectrum / destination buffers (same address,
+//! same length, same n) refilled in place with other contents between the calls.
 
 use rayon::prelude::*;
 use rlib_fft::{Complex, FFT};
-use rlib_num_traits::Float;
+use rlib_num_traits::{Float, ZeroOne};
 use vcore::*;
 
 static SHORT_DEST_JUDGED: std::sync::atomic::AtomicU64 = std::sync::atomic::AtomicU64::new(0);
@@ -145,28 +153,87 @@ fn magnitudes(prec: Prec, la: usize, lb: usize) -> Vec<i32> {
     v
 }
 
+/// The public ways of obtaining an object: `FFT::new()`, `Default::default()`, `Clone::clone` of either
+/// (the crate has no other constructor, no `From`, no `with_capacity`).
+#[derive(Clone, Copy, PartialEq, Eq, Hash, Debug)]
+enum Ctor {
+    New,
+    Default,
+    CloneOfNew,
+    CloneOfDefault,
+}
+
+const CTORS: [Ctor; 4] = [Ctor::New, Ctor::Default, Ctor::CloneOfNew, Ctor::CloneOfDefault];
+
+impl Ctor {
+    fn name(self) -> &'static str {
+        match self {
+            Ctor::New => "new",
+            Ctor::Default => "default",
+            Ctor::CloneOfNew => "clone-of-new",
+            Ctor::CloneOfDefault => "clone-of-default",
+        }
+    }
+    fn from_name(s: &str) -> Ctor {
+        CTORS.iter().copied().find(|c| c.name() == s).unwrap_or(Ctor::New)
+    }
+    fn make<F: Float>(self) -> FFT<F> {
+        match self {
+            Ctor::New => FFT::new(),
+            Ctor::Default => Default::default(),
+            Ctor::CloneOfNew => {
+                let f = FFT::<F>::new();
+                f.clone()
+            }
+            Ctor::CloneOfDefault => {
+                let f: FFT<F> = Default::default();
+                f.clone()
+            }
+        }
+    }
+}
+
+/// Operands that are views of ONE buffer (they may overlap or coincide); the lengths are those of
+/// `CallSpec::a` / `CallSpec::b`, which hold the values of the two views.
+#[derive(Clone, Debug)]
+struct Views {
+    buf: Vec<i32>,
+    a0: usize,
+    b0: usize,
+}
+
 #[derive(Clone, Debug)]
 struct CallSpec {
     prec: Prec,
-    /// table size of the object before the call
+    /// how the object was obtained
+    ctor: Ctor,
+    /// table size of the object before the call (1 and 2: `update_n` below the pre-sized 4, which changes
+    /// nothing in an object that pre-sizes its tables)
     state: usize,
-    /// how the state was reached: false = update_n, true = a large multiply
+    /// how the state was reached: false = update_n, true = a multiply needing that transform size
     grown_by_multiply: bool,
     a: Vec<i32>,
     b: Vec<i32>,
+    /// None: a and b are separately allocated vectors
+    views: Option<Views>,
 }
 
-fn grow<F: Float>(state: usize, by_multiply: bool) -> FFT<F> {
-    let mut f = FFT::<F>::new();
-    if state > 4 {
-        if by_multiply {
-            // needs n = state: la + lb - 1 in (state/2, state]
-            let la = state / 2 + 1;
-            let lb = state - la + 1;
-            let _ = f.multiply(&vec![1; la], &vec![1; lb]);
-        } else {
-            f.update_n(state);
-        }
+impl CallSpec {
+    fn plain(prec: Prec, state: usize, a: Vec<i32>, b: Vec<i32>) -> CallSpec {
+        CallSpec { prec, ctor: Ctor::New, state, grown_by_multiply: false, a, b, views: None }
+    }
+}
+
+fn grow<F: Float>(ctor: Ctor, state: usize, by_multiply: bool) -> FFT<F> {
+    let mut f = ctor.make::<F>();
+    if by_multiply {
+        // needs n = state: la + lb - 1 in (state/2, state]
+        let n = state.max(2);
+        let la = n / 2 + 1;
+        let lb = n - la + 1;
+        let _ = f.multiply(&vec![1; la], &vec![1; lb]);
+    } else {
+        f.update_n(state);
     }
     f
 }
@@ -305,14 +372,48 @@ fn judge_call<F: Float>(obj: &FFT<F>, a: &[i32], b: &[i32]) -> Result<(), (&'sta
 }
 
 fn run_spec(s: &CallSpec) -> Result<(), (&'static str, String)> {
+    // aliased operands are passed as what they are: two views of one allocation
+    let (a, b): (&[i32], &[i32]) = match &s.views {
+        None => (&s.a, &s.b),
+        Some(v) => (&v.buf[v.a0..v.a0 + s.a.len()], &v.buf[v.b0..v.b0 + s.b.len()]),
+    };
     match s.prec {
-        Prec::F64 => judge_call(&grow::<f64>(s.state, s.grown_by_multiply), &s.a, &s.b),
-        Prec::F32 => judge_call(&grow::<f32>(s.state, s.grown_by_multiply), &s.a, &s.b),
+        Prec::F64 => judge_call(&grow::<f64>(s.ctor, s.state, s.grown_by_multiply), a, b),
+        Prec::F32 => judge_call(&grow::<f32>(s.ctor, s.state, s.grown_by_multiply), a, b),
     }
 }
 
 fn spec_json(s: &CallSpec) -> Value {
-    json!({"prec": format!("{:?}", s.prec), "state": s.state, "grown_by_multiply": s.grown_by_multiply, "a": rle(&s.a), "b": rle(&s.b)})
+    let mut j = json!({"prec": format!("{:?}", s.prec), "ctor": s.ctor.name(), "state": s.state, "grown_by_multiply": s.grown_by_multiply, "a": rle(&s.a), "b": rle(&s.b)});
+    if let Some(v) = &s.views {
+        j["views"] = json!({"buf": rle(&v.buf), "a0": v.a0, "b0": v.b0});
+    }
+    j
+}
+
+fn spec_from(v: &Value) -> CallSpec {
+    let mut s = CallSpec {
+        prec: if v["prec"] == "F32" { Prec::F32 } else { Prec::F64 },
+        ctor: Ctor::from_name(v["ctor"].as_str().unwrap_or("new")),
+        state: v["state"].as_u64().unwrap() as usize,
+        grown_by_multiply: v["grown_by_multiply"].as_bool().unwrap(),
+        a: unrle(&v["a"]),
+        b: unrle(&v["b"]),
+        views: None,
+    };
+    if let Some(w) = v.get("views") {
+        s.views = Some(Views { buf: unrle(&w["buf"]), a0: w["a0"].as_u64().unwrap() as usize, b0: w["b0"].as_u64().unwrap() as usize });
+    }
+    s
+}
+
+fn signature(fam: &str, s: &CallSpec) -> String {
+    let ctor = if s.ctor == Ctor::New { String::new() } else { format!(":ctor={}", s.ctor.name()) };
+    let views = match &s.views {
+        None => String::new(),
+        Some(v) => format!(":views of one buffer of {} a=[{}..{}) b=[{}..{})", v.buf.len(), v.a0, v.a0 + s.a.len(), v.b0, v.b0 + s.b.len()),
+    };
+    format!("{fam}:{:?}:state={}{ctor}:{}:a={}:b={}{views}", s.prec, s.state, if s.grown_by_multiply { "grown-by-multiply" } else { "update_n" }, describe(&s.a), describe(&s.b))
 }
 
 fn rle(v: &[i32]) -> Value {
@@ -365,8 +466,15 @@ fn run_history(ops: &[HOp]) -> Result<(), String> {
         match op {
             HOp::Update(n) => f.update_n(*n),
             HOp::Fft(n) => {
+                // one forward transform, squared pointwise, inverse: the product v * v
                 let v = pattern(8, *n, 1000);
-                let _ = f.fft(&v, 0);
+                let spec = f.fft(&v, 2 * *n);
+                let prod: Vec<Complex<f64>> = spec.iter().map(|x| *x * *x).collect();
+                let mut exp = conv(&v, &v);
+                exp.resize(2 * *n, 0);
+                if f.fft_inv(&prod) != exp {
+                    return Err(format!("call #{k} {:?} of the history {:?} on one object: fft -> pointwise square -> fft_inv differs from the convolution", op, ops));
+                }
             }
             HOp::Mul(la, lb, kind) => {
                 let a = pattern(*kind, *la, amax(Prec::F64, *la, *lb).min(1_000_000));
@@ -405,20 +513,253 @@ fn hop_from(v: &Value) -> HOp {
 }
 
 // ---------------------------------------------------------------------------------------------
+// operands that alias: views of one buffer
+
+/// How two views of one buffer relate (for the evidence counters).
+fn relation(a0: usize, la: usize, b0: usize, lb: usize) -> &'static str {
+    if la == 0 || lb == 0 {
+        "one view empty"
+    } else if a0 == b0 && la == lb {
+        "the same slice twice"
+    } else if a0 == b0 {
+        "same start, different length (one is a prefix of the other)"
+    } else if a0 + la == b0 + lb {
+        "same end, different start (one is a suffix of the other)"
+    } else if a0 + la <= b0 || b0 + lb <= a0 {
+        "disjoint windows of one allocation"
+    } else if (a0 < b0 && b0 + lb < a0 + la) || (b0 < a0 && a0 + la < b0 + lb) {
+        "one strictly inside the other"
+    } else {
+        "partially overlapping windows"
+    }
+}
+
+/// (buffer length, a0, la, b0, lb), simplest first: ALL pairs of windows of a buffer of `small` elements
+/// (the empty window included), then for the longer lengths of `long` the structured relations.
+fn alias_layouts(small: usize, long: &[usize]) -> Vec<(usize, usize, usize, usize, usize)> {
+    let mut windows = vec![(0usize, 0usize)];
+    for len in 1..=small {
+        for start in 0..=small - len {
+            windows.push((start, len));
+        }
+    }
+    let mut v = vec![];
+    for &(a0, la) in &windows {
+        for &(b0, lb) in &windows {
+            v.push((small, a0, la, b0, lb));
+        }
+    }
+    v.sort_by_key(|&(_, a0, la, b0, lb)| (la + lb, la, a0, b0));
+    for &l in long {
+        let h = l / 2;
+        let mut w = vec![(l, 0, l, 0, l)];
+        for k in [1, h, l - 1] {
+            w.push((l, 0, l, 0, k)); // b is a prefix of a
+            w.push((l, 0, k, 0, l)); // a is a prefix of b
+            w.push((l, 0, l, l - k, k)); // b is a suffix of a
+            w.push((l, l - k, k, 0, l)); // a is a suffix of b
+        }
+        w.push((l, 0, l, 1, h)); // b strictly inside a
+        w.push((l, h / 2, h, 0, l)); // a strictly inside b
+        w.push((l + h, 0, l, h, l)); // overlapping windows
+        w.push((l + h, h, l, 0, l));
+        w.push((l + 1, 0, l, 1, l)); // shifted by one
+        w.push((2 * l, 0, l, l, l)); // adjacent
+        w.push((2 * l, l, l, 0, l));
+        w.dedup();
+        v.extend(w);
+    }
+    v
+}
+
+// ---------------------------------------------------------------------------------------------
+// buffer-reuse histories: one object, ONE set of caller buffers, refilled in place between the calls
+
+/// The public methods, called on the persistent buffers A (len la), B (len lb), the spectrum buffers and
+/// the destination D.
+#[derive(Clone, Copy, PartialEq, Debug)]
+enum RMethod {
+    /// multiply(A, B)
+    Mul,
+    /// multiply(B, A)
+    MulSwapped,
+    /// multiply_into(A, B, D), D refilled in place with the pre-fill pattern
+    MulInto,
+    /// fft(A, n), fft(B, n), pointwise product, fft_inv
+    Route,
+    /// fft_into(A, n, SA), fft_into(B, n, SB) into the zeroed persistent spectrum buffers, pointwise
+    /// product into SP, fft_inv_into(SP, D)
+    RouteInto,
+    /// fft(A, n) once, squared pointwise, fft_inv: the product A * A
+    SquareA,
+    /// the same with B
+    SquareB,
+}
+
+const RMETHODS: [RMethod; 7] = [RMethod::Mul, RMethod::MulSwapped, RMethod::MulInto, RMethod::Route, RMethod::RouteInto, RMethod::SquareA, RMethod::SquareB];
+/// contents of (A, B) as pattern kinds; contents 1 is contents 0 with A and B exchanged
+const RCONTENTS: [(u8, u8); 3] = [(8, 2), (2, 8), (7, 1)];
+
+#[derive(Clone, Debug)]
+struct ReuseSpec {
+    prec: Prec,
+    ctor: Ctor,
+    la: usize,
+    lb: usize,
+    /// (index into RCONTENTS, index into RMETHODS)
+    steps: Vec<(usize, usize)>,
+}
+
+static REFILLS_IN_PLACE: std::sync::atomic::AtomicU64 = std::sync::atomic::AtomicU64::new(0);
+static REUSE_STEPS: std::sync::atomic::AtomicU64 = std::sync::atomic::AtomicU64::new(0);
+
+fn dest_prefill(i: usize) -> i64 {
+    match i % 3 {
+        0 => 1000 + 7 * i as i64,
+        1 => (1i64 << 55) + 9,
+        _ => -(1i64 << 60) - 3 * i as i64,
+    }
+}
+
+fn run_reuse_typed<F: Float>(s: &ReuseSpec) -> Result<(), String> {
+    use std::sync::atomic::Ordering::Relaxed;
+    let (la, lb) = (s.la, s.lb);
+    let mag = amax(s.prec, la, lb);
+    let size_for = |len: usize| len.next_power_of_two().max(2);
+    let n_ab = size_for(la + lb - 1);
+    let n_max = size_for(2 * la.max(lb) - 1);
+    let mut obj = s.ctor.make::<F>();
+    // the caller's buffers: allocated once, never reallocated below
+    let mut abuf = vec![0i32; la];
+    let mut bbuf = vec![0i32; lb];
+    let mut sa = vec![Complex::<F>::ZERO; n_ab];
+    let mut sb = vec![Complex::<F>::ZERO; n_ab];
+    let mut sp = vec![Complex::<F>::ZERO; n_ab];
+    let mut dest = vec![0i64; n_max + 3];
+    let addr = (abuf.as_ptr() as usize, bbuf.as_ptr() as usize, sa.as_ptr() as usize, dest.as_ptr() as usize);
+    for (k, &(ci, mi)) in s.steps.iter().enumerate() {
+        let (ka, kb) = RCONTENTS[ci];
+        // refill in place
+        abuf.copy_from_slice(&pattern(ka, la, mag));
+        bbuf.copy_from_slice(&pattern(kb, lb, mag));
+        for i in 0..dest.len() {
+            dest[i] = dest_prefill(i);
+        }
+        for x in sa.iter_mut().chain(sb.iter_mut()).chain(sp.iter_mut()) {
+            *x = Complex::ZERO;
+        }
+        if (abuf.as_ptr() as usize, bbuf.as_ptr() as usize, sa.as_ptr() as usize, dest.as_ptr() as usize) != addr {
+            return Err("harness: a caller buffer moved".to_string());
+        }
+        REFILLS_IN_PLACE.fetch_add(1, Relaxed);
+        REUSE_STEPS.fetch_add(1, Relaxed);
+        let m = RMETHODS[mi];
+        // (what was computed, what it must be); destinations are reported as the amount ADDED
+        let (got, exp): (Vec<i64>, Vec<i64>) = match m {
+            RMethod::Mul => (obj.multiply(&abuf, &bbuf), conv(&abuf, &bbuf)),
+            RMethod::MulSwapped => (obj.multiply(&bbuf, &abuf), conv(&bbuf, &abuf)),
+            RMethod::MulInto => {
+                let l = la + lb - 1 + 3;
+                obj.multiply_into(&abuf, &bbuf, &mut dest[..l]);
+                let mut e = conv(&abuf, &bbuf);
+                e.resize(l, 0);
+                ((0..l).map(|i| dest[i].wrapping_sub(dest_prefill(i))).collect(), e)
+            }
+            RMethod::Route => {
+                let fa = obj.fft(&abuf, n_ab);
+                let fb = obj.fft(&bbuf, n_ab);
+                let prod: Vec<Complex<F>> = fa.iter().zip(fb.iter()).map(|(x, y)| *x * *y).collect();
+                let mut e = conv(&abuf, &bbuf);
+                e.resize(n_ab, 0);
+                (obj.fft_inv(&prod), e)
+            }
+            RMethod::RouteInto => {
+                obj.fft_into(&abuf, n_ab, &mut sa);
+                obj.fft_into(&bbuf, n_ab, &mut sb);
+                for i in 0..n_ab {
+                    sp[i] = sa[i] * sb[i];
+                }
+                obj.fft_inv_into(&sp, &mut dest[..n_ab]);
+                let mut e = conv(&abuf, &bbuf);
+                e.resize(n_ab, 0);
+                ((0..n_ab).map(|i| dest[i].wrapping_sub(dest_prefill(i))).collect(), e)
+            }
+            RMethod::SquareA | RMethod::SquareB => {
+                let v: &[i32] = if m == RMethod::SquareA { &abuf } else { &bbuf };
+                let n = size_for(2 * v.len() - 1);
+                let f = obj.fft(v, n);
+                let prod: Vec<Complex<F>> = f.iter().map(|x| *x * *x).collect();
+                let mut e = conv(v, v);
+                e.resize(n, 0);
+                (obj.fft_inv(&prod), e)
+            }
+        };
+        if got != exp {
+            let at = got.iter().zip(exp.iter()).position(|(p, q)| p != q);
+            let diff = match at {
+                Some(i) => format!("first difference at index {i}: got {} expected {}", got[i], exp[i]),
+                None => format!("lengths {} vs {}", got.len(), exp.len()),
+            };
+            return Err(format!(
+                "step #{k} ({:?} on contents {ci}: A = {}, B = {}) of a history on ONE {:?} object obtained by {} whose caller buffers (inputs of lengths {la} and {lb}, spectra, destination) stay at the same addresses and are refilled in place before every step: the result differs from the integer convolution of the buffers' CURRENT values; {diff}",
+                m,
+                describe(&abuf),
+                describe(&bbuf),
+                s.prec,
+                s.ctor.name()
+            ));
+        }
+    }
+    Ok(())
+}
+
+fn run_reuse(s: &ReuseSpec) -> Result<(), String> {
+    let r = match s.prec {
+        Prec::F64 => catch(|| run_reuse_typed::<f64>(s)),
+        Prec::F32 => catch(|| run_reuse_typed::<f32>(s)),
+    };
+    r.unwrap_or_else(|p| Err(format!("panic in a buffer-reuse history: {p}")))
+}
+
+fn reuse_json(s: &ReuseSpec) -> Value {
+    json!({"kind": "reuse_history", "prec": format!("{:?}", s.prec), "ctor": s.ctor.name(), "la": s.la, "lb": s.lb,
+           "steps": s.steps.iter().map(|&(c, m)| json!({"contents": c, "method": format!("{:?}", RMETHODS[m])})).collect::<Vec<_>>()})
+}
+
+fn reuse_from(v: &Value) -> ReuseSpec {
+    ReuseSpec {
+        prec: if v["prec"] == "F32" { Prec::F32 } else { Prec::F64 },
+        ctor: Ctor::from_name(v["ctor"].as_str().unwrap_or("new")),
+        la: v["la"].as_u64().unwrap() as usize,
+        lb: v["lb"].as_u64().unwrap() as usize,
+        steps: v["steps"]
+            .as_array()
+            .unwrap()
+            .iter()
+            .map(|st| {
+                let name = st["method"].as_str().unwrap();
+                (st["contents"].as_u64().unwrap() as usize, RMETHODS.iter().position(|m| format!("{:?}", m) == name).unwrap())
+            })
+            .collect(),
+    }
+}
+
+fn reuse_signature(s: &ReuseSpec) -> String {
+    let steps: Vec<String> = s.steps.iter().map(|&(c, m)| format!("{:?}(contents {c})", RMETHODS[m])).collect();
+    format!("buffer_reuse_history:{:?}:ctor={}:la={}:lb={}:{}", s.prec, s.ctor.name(), s.la, s.lb, steps.join(" -> "))
+}
+
+// ---------------------------------------------------------------------------------------------
 
 fn confirm(v: &Value) -> Result<(), String> {
+    if v["kind"] == "reuse_history" {
+        return run_reuse(&reuse_from(v));
+    }
     if v["kind"] == "history" {
         let ops: Vec<HOp> = v["ops"].as_array().unwrap().iter().map(hop_from).collect();
         return catch(|| run_history(&ops)).unwrap_or_else(|p| Err(format!("panic: {p}")));
     }
-    let s = CallSpec {
-        prec: if v["prec"] == "F32" { Prec::F32 } else { Prec::F64 },
-        state: v["state"].as_u64().unwrap() as usize,
-        grown_by_multiply: v["grown_by_multiply"].as_bool().unwrap(),
-        a: unrle(&v["a"]),
-        b: unrle(&v["b"]),
-    };
-    run_spec(&s).map_err(|(f, m)| format!("[{f}] {m}"))
+    run_spec(&spec_from(v)).map_err(|(f, m)| format!("[{f}] {m}"))
 }
 
 #[derive(Default)]
@@ -469,35 +810,60 @@ fn main() {
     lens.dedup();
 
     // --- part 1: all states x all (la, lb) x patterns ------------------------------------------
-    let mut tasks: Vec<(Prec, usize, bool, usize, usize)> = vec![];
+    // An object state is (constructor, table size, how it was reached).  Objects from `new()` at the sizes
+    // 4..2^K get the full / thin slices of the length set; the other initial objects (default, clones) and
+    // the sizes 1 and 2 below the pre-sized 4 (where `update_n` changes nothing in an object that
+    // pre-sizes, so that the judged call is the FIRST transform of a fresh object) get the sparse slice:
+    // every pair of lengths <= 8 (transform sizes 2, 4, 8, 16) and a third of the pairs at a size switch.
+    #[derive(Clone, Copy, PartialEq)]
+    enum Slice {
+        Full,
+        Thin,
+        Sparse,
+    }
+    let mut object_states: Vec<(Ctor, usize, bool, Slice)> = vec![];
+    for &st in &states {
+        object_states.push((Ctor::New, st, false, Slice::Full));
+        if st > 4 {
+            object_states.push((Ctor::New, st, true, Slice::Thin));
+        }
+    }
+    for &ctor in &CTORS {
+        for (st, by_mul) in [(1, false), (2, false), (2, true), (4, false), (4, true), (8, false), (64, true), (2048, false)] {
+            if !object_states.iter().any(|o| o.0 == ctor && o.1 == st && o.2 == by_mul) {
+                object_states.push((ctor, st, by_mul, Slice::Sparse));
+            }
+        }
+    }
+    // (…, position of the object state in the list above: failures are reported for the earliest one)
+    let mut tasks: Vec<(Prec, Ctor, usize, bool, usize, usize, usize)> = vec![];
     for &prec in &[Prec::F64, Prec::F32] {
-        for &st in &states {
-            for by_mul in [false, true] {
-                if st == 4 && by_mul {
-                    continue;
-                }
-                // f32 and the multiply-grown variant: a thinner slice of the length set
-                for (ia, &la) in lens.iter().enumerate() {
-                    for (ib, &lb) in lens.iter().enumerate() {
-                        let thin = prec == Prec::F32 || by_mul;
-                        if thin && !((ia + ib) % 3 == 0 || la + lb - (la + lb).min(1) == 0 || (la + lb).saturating_sub(1).is_power_of_two() || (la + lb).is_power_of_two() || (la + lb + 1).is_power_of_two()) {
-                            continue;
-                        }
-                        tasks.push((prec, st, by_mul, la, lb));
+        for (oi, &(ctor, st, by_mul, slice)) in object_states.iter().enumerate() {
+            for (ia, &la) in lens.iter().enumerate() {
+                for (ib, &lb) in lens.iter().enumerate() {
+                    let at_switch = la + lb - (la + lb).min(1) == 0 || (la + lb).saturating_sub(1).is_power_of_two() || (la + lb).is_power_of_two() || (la + lb + 1).is_power_of_two();
+                    // f32 and the multiply-grown variant: a thinner slice of the length set
+                    let keep = match slice {
+                        Slice::Full if prec == Prec::F64 => true,
+                        Slice::Full | Slice::Thin => (ia + ib) % 3 == 0 || at_switch,
+                        Slice::Sparse => (la <= 8 && lb <= 8) || (at_switch && (ia + ib) % 3 == 0),
+                    };
+                    if keep {
+                        tasks.push((prec, ctor, st, by_mul, la, lb, oi));
                     }
                 }
             }
         }
     }
-    let idx_of = |t: &(Prec, usize, bool, usize, usize)| -> u64 { ((t.3 + t.4) as u64) << 40 | (t.1 as u64) << 16 | (t.3 as u64) };
+    let idx_of = |t: &(Prec, Ctor, usize, bool, usize, usize, usize)| -> u64 { ((t.4 + t.5) as u64) << 40 | (t.6 as u64) << 20 | (t.4 as u64) << 8 };
     let part1 = tasks
         .par_iter()
         .map(|t| {
-            let (prec, st, by_mul, la, lb) = *t;
+            let (prec, ctor, st, by_mul, la, lb, _) = *t;
             let mut tot = Tot::default();
             let base = idx_of(t);
             if la == 0 || lb == 0 {
-                let s = CallSpec { prec, state: st, grown_by_multiply: by_mul, a: vec![1; la], b: vec![2; lb] };
+                let s = CallSpec { prec, ctor, state: st, grown_by_multiply: by_mul, a: vec![1; la], b: vec![2; lb], views: None };
                 tot.calls += 1;
                 if let Err((f, m)) = run_spec(&s) {
                     tot.fails.push((base, f, s, m));
@@ -511,7 +877,7 @@ fn main() {
                     if mi == 1 && magnitudes(prec, la, lb).len() == 3 && pi % 3 != 0 {
                         continue;
                     }
-                    let s = CallSpec { prec, state: st, grown_by_multiply: by_mul, a: pattern(ka, la, a), b: pattern(kb, lb, a) };
+                    let s = CallSpec { prec, ctor, state: st, grown_by_multiply: by_mul, a: pattern(ka, la, a), b: pattern(kb, lb, a), views: None };
                     tot.calls += 1;
                     tot.nontrivial += 1;
                     if need > st {
@@ -553,8 +919,8 @@ fn main() {
             let mut tot = Tot::default();
             let a_mag = amax(prec, la, lb);
             let letters = [-a_mag, -1, 0, 1, a_mag];
-            let obj64 = if prec == Prec::F64 { Some(grow::<f64>(st, false)) } else { None };
-            let obj32 = if prec == Prec::F32 { Some(grow::<f32>(st, false)) } else { None };
+            let obj64 = if prec == Prec::F64 { Some(grow::<f64>(Ctor::New, st, false)) } else { None };
+            let obj32 = if prec == Prec::F32 { Some(grow::<f32>(Ctor::New, st, false)) } else { None };
             let na = 5usize.pow(la as u32);
             let nb = 5usize.pow(lb as u32);
             for ca in 0..na {
@@ -567,7 +933,7 @@ fn main() {
                         Prec::F32 => judge_call(obj32.as_ref().unwrap(), &a, &b),
                     };
                     if let Err((f, m)) = r {
-                        let s = CallSpec { prec, state: st, grown_by_multiply: false, a: a.clone(), b: b.clone() };
+                        let s = CallSpec::plain(prec, st, a.clone(), b.clone());
                         tot.fails.push(((1u64 << 60) | ((la + lb) as u64) << 40 | (ca * nb + cb) as u64, f, s, m));
                         return tot;
                     }
@@ -587,11 +953,11 @@ fn main() {
         let pats: &[(u8, u8)] = if la as u64 * lb as u64 > 1_000_000_000 { &[(0, 0), (8, 8)] } else { &[(0, 0), (2, 2), (8, 8), (1, 0)] };
         for &(ka, kb) in pats {
             let a = amax(Prec::F64, la, lb).min(1_000_000);
-            corner_specs.push(CallSpec { prec: Prec::F64, state: 4, grown_by_multiply: false, a: pattern(ka, la, a), b: pattern(kb, lb, a) });
+            corner_specs.push(CallSpec::plain(Prec::F64, 4, pattern(ka, la, a), pattern(kb, lb, a)));
             if la * lb <= 4_000_000 {
                 let a32 = amax(Prec::F32, la, lb);
                 if a32 >= 1 {
-                    corner_specs.push(CallSpec { prec: Prec::F32, state: 4, grown_by_multiply: false, a: pattern(ka, la, a32), b: pattern(kb, lb, a32) });
+                    corner_specs.push(CallSpec::plain(Prec::F32, 4, pattern(ka, la, a32), pattern(kb, lb, a32)));
                 }
             }
         }
@@ -630,25 +996,133 @@ fn main() {
         })
         .min_by_key(|x| x.0);
 
-    let all = merge(merge(part1, part2), part3);
+    // --- part 5: operands that alias (views of one buffer) ------------------------------------------
+    let alias_long: Vec<usize> = if quick { vec![9, 16, 17, 33, 64, 129] } else { vec![9, 15, 16, 17, 31, 32, 33, 40, 64, 65, 127, 128, 129, 513, 1025] };
+    let layouts = alias_layouts(if quick { 8 } else { 10 }, &alias_long);
+    let alias_objects: Vec<(Ctor, usize)> = vec![(Ctor::New, 4), (Ctor::New, 2048), (Ctor::Default, 1)];
+    let mut alias_tasks = vec![];
+    for &prec in &[Prec::F64, Prec::F32] {
+        for (oi, &(ctor, st)) in alias_objects.iter().enumerate() {
+            for (li, &lay) in layouts.iter().enumerate() {
+                alias_tasks.push((prec, ctor, st, oi, li, lay));
+            }
+        }
+    }
+    let mut relation_counts: std::collections::BTreeMap<&'static str, u64> = Default::default();
+    for &(_, a0, la, b0, lb) in &layouts {
+        *relation_counts.entry(relation(a0, la, b0, lb)).or_default() += 1;
+    }
+    let part5 = alias_tasks
+        .par_iter()
+        .map(|&(prec, ctor, st, oi, li, (bl, a0, la, b0, lb))| {
+            let mut tot = Tot::default();
+            let mut mags = vec![1, amax(prec, la, lb)];
+            mags.dedup();
+            for (mi, &mag) in mags.iter().enumerate() {
+                for (ki, kind) in [8u8, 7, 2, 0].into_iter().enumerate() {
+                    let buf = pattern(kind, bl, mag);
+                    let s = CallSpec { prec, ctor, state: st, grown_by_multiply: false, a: buf[a0..a0 + la].to_vec(), b: buf[b0..b0 + lb].to_vec(), views: Some(Views { buf, a0, b0 }) };
+                    tot.calls += 1;
+                    if la > 0 && lb > 0 {
+                        tot.nontrivial += 1;
+                    }
+                    if let Err((f, m)) = run_spec(&s) {
+                        tot.fails.push(((3u64 << 60) | (li as u64) << 16 | (oi as u64) << 8 | (mi * 4 + ki) as u64, f, s, m));
+                        return tot;
+                    }
+                }
+            }
+            tot
+        })
+        .reduce(Tot::default, merge);
+
+    // --- part 6: buffer-reuse histories ---------------------------------------------------------------
+    // letters = (contents, method); every history of up to `depth` letters, per length pair, per
+    // constructor, per precision, on one object and one set of caller buffers
+    let reuse_pairs: Vec<(usize, usize, usize)> = if quick {
+        vec![(1, 1, 3), (1, 2, 3), (2, 2, 3), (3, 2, 3), (4, 4, 3), (5, 9, 3), (16, 17, 3), (33, 31, 2)]
+    } else {
+        vec![(1, 1, 4), (1, 2, 4), (2, 2, 4), (3, 2, 4), (4, 4, 3), (5, 9, 3), (16, 17, 3), (33, 31, 3), (64, 65, 3), (129, 128, 2), (600, 500, 2)]
+    };
+    let letters: Vec<(usize, usize)> = (0..RCONTENTS.len()).flat_map(|c| (0..RMETHODS.len()).map(move |m| (c, m))).collect();
+    let mut reuse_tasks = vec![];
+    for (pi, &(la, lb, depth)) in reuse_pairs.iter().enumerate() {
+        for &prec in &[Prec::F64, Prec::F32] {
+            for &ctor in &[Ctor::New, Ctor::Default] {
+                for &first in &letters {
+                    reuse_tasks.push((pi, la, lb, depth, prec, ctor, first));
+                }
+            }
+        }
+    }
+    // per task: number of histories run, and the first failing one as (length, rank in the task)
+    let reuse_results: Vec<(u64, Option<(usize, u64, ReuseSpec, String)>)> = reuse_tasks
+        .par_iter()
+        .map(|&(_, la, lb, depth, prec, ctor, first)| {
+            let mut count = 0u64;
+            for len in 1..=depth {
+                // the remaining len - 1 letters: all words, in lexicographic order
+                let words = (letters.len() as u64).pow(len as u32 - 1);
+                for rank in 0..words {
+                    let mut steps = vec![first; len];
+                    let mut r = rank;
+                    for pos in (1..len).rev() {
+                        steps[pos] = letters[(r % letters.len() as u64) as usize];
+                        r /= letters.len() as u64;
+                    }
+                    let spec = ReuseSpec { prec, ctor, la, lb, steps };
+                    count += 1;
+                    if let Err(m) = run_reuse(&spec) {
+                        return (count, Some((len, rank, spec, m)));
+                    }
+                }
+            }
+            (count, None)
+        })
+        .collect();
+    let reuse_histories: u64 = reuse_results.iter().map(|r| r.0).sum();
+    // shortest history first, then the smallest length pair, then task order
+    let reuse_fail = reuse_results.iter().enumerate().filter_map(|(ti, r)| r.1.as_ref().map(|f| ((f.0, reuse_tasks[ti].0, ti, f.1), f))).min_by_key(|x| x.0).map(|x| x.1.clone());
+
+    let part5_calls = part5.calls;
+    let all = merge(merge(merge(part1, part2), part3), part5);
     let mut fails = all.fails.clone();
     fails.sort_by_key(|f| f.0);
     for (_, fam, s, m) in &fails {
-        let sig = format!("{fam}:{:?}:state={}:{}:a={}:b={}", s.prec, s.state, if s.grown_by_multiply { "grown-by-multiply" } else { "update_n" }, describe(&s.a), describe(&s.b));
-        run.violation(Violation::new(sig, format!("[{fam}] {:?} object with tables of size {} ({}), a = {} (len {}), b = {} (len {}): {m}", s.prec, s.state, if s.grown_by_multiply { "reached by a multiply" } else { "update_n" }, describe(&s.a), s.a.len(), describe(&s.b), s.b.len()), spec_json(s)));
+        let views = match &s.views {
+            None => String::new(),
+            Some(v) => format!(" [a and b are VIEWS of one buffer of {} elements: a = buf[{}..{}], b = buf[{}..{}], {}]", v.buf.len(), v.a0, v.a0 + s.a.len(), v.b0, v.b0 + s.b.len(), relation(v.a0, s.a.len(), v.b0, s.b.len())),
+        };
+        run.violation(Violation::new(
+            signature(fam, s),
+            format!("[{fam}] {:?} object obtained by {} with tables of size {} ({}), a = {} (len {}), b = {} (len {}){views}: {m}", s.prec, s.ctor.name(), s.state, if s.grown_by_multiply { "reached by a multiply" } else { "update_n" }, describe(&s.a), s.a.len(), describe(&s.b), s.b.len()),
+            spec_json(s),
+        ));
+    }
+    if let Some((_, _, spec, m)) = &reuse_fail {
+        run.violation(Violation::new(reuse_signature(spec), m.clone(), reuse_json(spec)));
     }
     if let Some((_, h, m)) = &hist_fail {
         run.violation(Violation::new(format!("history:{:?}", h), m.clone(), json!({"kind": "history", "ops": h.iter().map(hop_json).collect::<Vec<_>>()})));
     }
 
-    let n_states = states.len() as u64 * 2 - 1;
+    let n_states = object_states.len() as u64;
+    let n_hist = hists.len() as u64 + reuse_histories;
     run.cov("states", n_states);
-    run.cov("transitions", all.calls + hists.len() as u64);
-    run.cov("traces_validated_against_impl", all.calls + hists.len() as u64);
-    run.cov("evaluations", all.calls + hists.len() as u64);
+    run.cov("transitions", all.calls + n_hist);
+    run.cov("traces_validated_against_impl", all.calls + n_hist);
+    run.cov("evaluations", all.calls + n_hist);
     run.cov("distinct_nontrivial", all.nontrivial);
     run.cov("calls_that_grow_the_tables", all.size_switch);
     run.cov("object_states", json!(states));
+    run.cov("constructors", json!(CTORS.iter().map(|c| c.name()).collect::<Vec<_>>()));
+    run.cov("object_states_constructor_x_size_x_how_reached", json!(object_states.iter().map(|o| format!("{}:{}:{}", o.0.name(), o.1, if o.2 { "multiply" } else { "update_n" })).collect::<Vec<_>>()));
+    run.cov("aliased_operand_calls", part5_calls);
+    run.cov("aliased_operand_layouts_by_relation", json!(relation_counts));
+    run.cov("buffer_reuse_histories", reuse_histories);
+    run.cov("buffer_reuse_steps_judged", REUSE_STEPS.load(std::sync::atomic::Ordering::Relaxed));
+    run.cov("buffer_reuse_refills_in_place_same_address", REFILLS_IN_PLACE.load(std::sync::atomic::Ordering::Relaxed));
+    run.cov("buffer_reuse_length_pairs_and_depth", json!(reuse_pairs));
     run.cov("lengths", json!(lens));
     run.cov("call_histories_up_to_3", hists.len() as u64);
     run.cov("exhaustive_small_vector_tasks", small_tasks.len() as u64);
@@ -657,13 +1131,32 @@ fn main() {
     run.cov("exhaustive", false);
     run.cov("multiply_into_short_destination_calls_judged", SHORT_DEST_JUDGED.load(std::sync::atomic::Ordering::Relaxed));
     run.cov("multiply_into_short_destination_calls_refused_by_panic_not_judged", SHORT_DEST_REFUSED.load(std::sync::atomic::Ordering::Relaxed));
-    run.cov("rule", "state = size of the object's twiddle/bit-reversal tables (every power of two 4..2^K, each reached by update_n and by a large multiply); transition = one call (a, b) judged five ways (exact convolution, fresh object, repeated call, multiply_into on a pre-filled destination longer than the product and on destinations shorter than it (lengths 1, min and max operand length, product length - 1: the positions that exist must receive exactly their coefficients), fft*fft->fft_inv and fft_inv_into); calls = every length pair of the length set x 12 pattern pairs x magnitudes {1, sqrt(Amax), Amax} with Amax on the envelope boundary, all vectors over {-A,-1,0,1,A} for lengths <= 4 (quick: la+lb <= 6), envelope corners with long vectors, and all call histories of length <= 3 over a 7-call alphabet; NOT all coefficient vectors (exhaustive: false)");
+    run.cov(
+        "rule",
+        "state = (how the object was obtained: new, Default::default, a clone of either - the whole public constructor surface; size of its twiddle/bit-reversal tables: every power of two 4..2^K for new(), reached by update_n and by a large multiply, and for every constructor the sizes 1 and 2 below the pre-sized 4 - so that a 1-, 2- or 4-point transform is the FIRST thing that kind of fresh object computes - and 4, 8, 64, 2048); transition = one call (a, b) judged five ways (exact convolution, fresh object, repeated call, multiply_into on a pre-filled destination longer than the product and on destinations shorter than it (lengths 1, min and max operand length, product length - 1: the positions that exist must receive exactly their coefficients), fft*fft->fft_inv and fft_inv_into); calls = every length pair of the length set x 12 pattern pairs x magnitudes {1, sqrt(Amax), Amax} with Amax on the envelope boundary (constructors other than new and the sizes 1, 2: all pairs of lengths <= 8 and a third of the pairs at a size switch), all vectors over {-A,-1,0,1,A} for lengths <= 4 (quick: la+lb <= 6), envelope corners with long vectors, all call histories of length <= 3 over an 8-call alphabet; ALIASED operands: a and b passed as two views of ONE buffer - all pairs of windows of an 8-element buffer (quick; the same slice twice, prefixes, suffixes, nested, overlapping, adjacent, empty) and the same relations at longer lengths around powers of two, 4 contents x 2 magnitudes, judged the same five ways against the convolution of the VALUES; BUFFER-REUSE histories: one object and one set of caller buffers (two inputs, three spectrum buffers, one destination, never reallocated: same address, same length, same n), every word of up to 3 letters (contents in {c0, c0 with A and B exchanged, c2} written into the buffers IN PLACE) x (method in {multiply, multiply with the arguments exchanged, multiply_into, fft/fft/pointwise/fft_inv, fft_into/fft_into/pointwise/fft_inv_into, fft once/pointwise square/fft_inv on A, the same on B}), every step compared with the convolution of the buffers' current values, for 8 length pairs x {new, default} x {f64, f32}; NOT all coefficient vectors (exhaustive: false)",
+    );
     run.sample(json!({"prec": "F64", "state": 2048, "a": "alternating ±A (len 33)", "b": "alternating ±A (len 31)", "A": amax(Prec::F64, 33, 31)}));
     run.sample(json!({"prec": "F32", "state": 4, "a": pattern(8, 5, amax(Prec::F32, 5, 4)), "b": pattern(2, 4, amax(Prec::F32, 5, 4))}));
     run.sample(json!({"history": hists.last().map(|h| h.iter().map(hop_json).collect::<Vec<_>>())}));
     run.assume("the envelope is read as max|coef|^2 * max(len a, len b) <= 1e12 (f64): inside the property's formula and inside the published table for unequal lengths too (zero padding); the f32 envelope max|coef|^2 * max(len) <= 1e3 is this harness's reading of 'a correspondingly smaller bound for f32' (>= 100x inside CORRECT_F32_BOUNDS)");
+    run.sample(json!({"aliased": {"buffer": pattern(8, 8, 11), "a": "buf[0..5]", "b": "buf[0..3]", "relation": relation(0, 5, 0, 3)}}));
+    run.sample(json!({"buffer_reuse_history": reuse_json(&ReuseSpec { prec: Prec::F64, ctor: Ctor::Default, la: 3, lb: 2, steps: vec![(0, 5), (1, 5), (2, 3)] })}));
+    run.assume("aliasing is limited to what safe Rust allows: the two i32 operands may be any two views of one allocation; a destination (&mut [i64] / &mut [Complex]) cannot alias an operand, so destinations and spectrum buffers are REUSED across calls (buffer-reuse histories) rather than aliased");
     if !run.has_violations() && (all.calls < 50_000 || all.size_switch < 100) {
         run.machinery_failure("exploration implausibly small");
+    }
+    if !run.has_violations() {
+        let refills = REFILLS_IN_PLACE.load(std::sync::atomic::Ordering::Relaxed);
+        let prefix_layouts = relation_counts.get(relation(0, 2, 0, 1)).copied().unwrap_or(0);
+        if part5_calls < 1000 || relation_counts.len() < 7 || prefix_layouts == 0 {
+            run.machinery_failure("the aliased-operand family did not cover every relation between two views");
+        }
+        if reuse_histories < 1000 || refills <= reuse_histories {
+            run.machinery_failure("the buffer-reuse histories did not refill their buffers in place");
+        }
+        if !object_states.iter().any(|o| o.0 == Ctor::Default && o.1 == 1) || !CTORS.iter().all(|c| object_states.iter().any(|o| o.0 == *c)) {
+            run.machinery_failure("some public constructor is not an initial object state");
+        }
     }
     run.finish(&confirm)
 }
